@@ -227,6 +227,19 @@ func checkObsOpt(rd readAPI, m *refMap, probes []mentry, who string, withIter bo
 				}
 			}
 			sym.Assert(n == want, who+": Iter.Prefix yields every registered route with that prefix")
+			// over every method at once
+			n, want = 0, 0
+			for method, route := range it.Prefix(it.Methods(), pre) {
+				k := m.find(method, route.Pattern())
+				sym.Assert(k >= 0 && m.ents[k].route == route && hasPrefixStr(route.Pattern(), pre), who+": Iter.Prefix over all methods yields only registered routes with that prefix")
+				n++
+			}
+			for _, x := range m.ents {
+				if hasPrefixStr(x.pattern, pre) {
+					want++
+				}
+			}
+			sym.Assert(n == want, who+": Iter.Prefix over all methods yields every registered route with that prefix")
 		}
 	}
 	// Routes
@@ -256,6 +269,10 @@ var c02Methods = []string{"GET", "FOO", "POST", ""}
 var c02Pool = []string{
 	"/a", "/a/{x}", "/a/{y}", "/a/*{w}", "/a/{x}/b", "a.b/", "/s/a", "/s/c",
 	"{h}.b/x", "/", "/ab", "/a/b", "/a/*{v}", "/a/*{w}/c", "/b{x}", "/b{y}/c", "a.b/x", "{g}.b/", "/{x", "/a/b/",
+	// hostnames that are label-wise prefixes of each other, ending in a parameter label (window selected with poolfrom)
+	"a.{b}/", "a.{b}.c/", "a.{b}/x", "{a}.{b}/",
+	// a route on an existing branching node that has no route yet, and writes below it (window 24..27, with the siblings-3 set)
+	"/s/", "/s/bx", "/s/a", "/s/d/e",
 }
 
 type c02State struct {
@@ -304,7 +321,7 @@ func HarnessC02History(st any) {
 		if symLen > 0 && step == 0 {
 			pattern = sym.String("pat", symLen)
 		} else {
-			pattern = c02Pool[sym.Choose("p"+string(rune('0'+step)), sym.Param("pool"))]
+			pattern = c02Pool[sym.ParamOr("poolfrom", 0)+sym.Choose("p"+string(rune('0'+step)), sym.Param("pool"))]
 		}
 		probes = append(probes, mentry{method: method, pattern: pattern})
 		before := model.clone()
